@@ -1,5 +1,6 @@
 import DaskModel.Lemmas.Blockwise
 import DaskModel.Lemmas.Annot
+import DaskModel.Lemmas.HLG
 import DaskModel.Model.HLG
 import DaskModel.Model.Annot
 import DaskModel.Generated.FuseRules
@@ -270,6 +271,301 @@ theorem cull_deps_mem_iff (L : Layer) (o : List Nat) (ks : List Key) (ts : List 
 example : cullDeps { output := 9, outInd := [0], args := [{ name := 1, ind := [0, 1], nb := [2, 3] }, { name := 2, ind := [1, 0], nb := [1, 1] }],
                      consts := [(5, [0])], concatenate := true } [1]
     = some [(1, [1, 0]), (1, [1, 1]), (1, [1, 2]), (2, [0, 0]), (5, [0])] := by decide
+
+/-! ## 2b. `HighLevelGraph.cull` -/
+section HLGCull
+open Dask.HLG
+
+def allTasks (ls : List LayerIn) : List HLG.Task := ls.flatMap (·.tasks)
+
+/-- Well-formedness of the layer list as `HighLevelGraph.cull` walks it (outputs first): every layer is
+    dependents-first, layers have pairwise disjoint keys, no task of a deeper layer depends on a key of a layer
+    walked earlier (the list is a reversed topological order of the layer dependency graph). -/
+def TopoH : List LayerIn → Prop
+  | [] => True
+  | l :: r => TopoL l.tasks ∧ (∀ k ∈ HLG.keysOf l.tasks, k ∉ HLG.keysOf (allTasks r)) ∧
+      (∀ t ∈ allTasks r, ∀ x ∈ t.2, x ∉ HLG.keysOf l.tasks) ∧ TopoH r
+
+theorem allTasks_append (a b : List LayerIn) : allTasks (a ++ b) = allTasks a ++ allTasks b := by
+  simp [allTasks]
+
+theorem allTasks_cons (l : LayerIn) (r : List LayerIn) : allTasks (l :: r) = l.tasks ++ allTasks r := by
+  simp [allTasks]
+
+/-- what the culled graph must contain: requested keys and dependencies of kept tasks -/
+def Need (keys0 : List K) (ret : List (List HLG.Task)) (x : K) : Prop := x ∈ keys0 ∨ ∃ t ∈ ret.flatten, x ∈ t.2
+
+/-- loop invariant of `HighLevelGraph.cull`, for the layers `pre` already walked and `rest` still to walk -/
+def Inv (keys0 : List K) (pre rest : List LayerIn) (st : List K × List (List HLG.Task)) : Prop :=
+  (∀ t ∈ st.2.flatten, t ∈ allTasks pre) ∧
+  (∀ x, Need keys0 st.2 x → x ∈ HLG.keysOf (allTasks (pre ++ rest)) →
+      x ∈ HLG.keysOf st.2.flatten ∨ (x ∈ HLG.keysOf (allTasks rest) ∧ (x ∈ st.1 ∨ st.1 = [])))
+
+theorem mem_keysOf_append {a b : List HLG.Task} {x : K} : x ∈ HLG.keysOf (a ++ b) ↔ x ∈ HLG.keysOf a ∨ x ∈ HLG.keysOf b := by
+  simp [HLG.keysOf]
+
+theorem inv_step (keys0 : List K) (pre : List LayerIn) (l : LayerIn) (r : List LayerIn) (st : List K × List (List HLG.Task))
+    (hT : TopoH (l :: r))
+    (hdep : ∀ t ∈ allTasks (l :: r), ∀ x ∈ t.2, x ∉ HLG.keysOf (allTasks pre))
+    (hinv : Inv keys0 pre (l :: r) st) : Inv keys0 (pre ++ [l]) r (cullStep st l) := by
+  obtain ⟨ks, ret⟩ := st
+  obtain ⟨hTl, hdisj, hlater, _⟩ := hT
+  obtain ⟨hsub, hneed⟩ := hinv
+  have hall : allTasks (pre ++ [l] ++ r) = allTasks (pre ++ l :: r) := by simp
+  have hpre1 : allTasks (pre ++ [l]) = allTasks pre ++ l.tasks := by simp [allTasks]
+  -- facts about a dependency x of a task of layer l that is a key of the graph
+  have hdepl : ∀ t ∈ l.tasks, ∀ x ∈ t.2, x ∈ HLG.keysOf (allTasks (pre ++ l :: r)) →
+      x ∈ HLG.keysOf l.tasks ∨ x ∈ HLG.keysOf (allTasks r) := by
+    intro t ht x hx hxg
+    rw [allTasks_append, allTasks_cons] at hxg
+    rcases mem_keysOf_append.mp hxg with h | h
+    · exact absurd h (hdep t (by rw [allTasks_cons]; exact List.mem_append_left _ ht) x hx)
+    · exact mem_keysOf_append.mp h
+  unfold cullStep
+  simp only
+  by_cases hemp : ks.isEmpty
+  · -- `if keys_set:` is false: the layer is kept whole
+    simp only [hemp, if_true]
+    have hks : ks = [] := by simpa using hemp
+    refine ⟨?_, ?_⟩
+    · intro t ht
+      simp only [List.flatten_append, List.flatten_cons, List.flatten_nil, List.append_nil, List.mem_append] at ht
+      rw [hpre1]
+      rcases ht with ht | ht
+      · exact List.mem_append_left _ (hsub t ht)
+      · exact List.mem_append_right _ ht
+    · intro x hx hxg
+      rw [hall] at hxg
+      simp only [List.flatten_append, List.flatten_cons, List.flatten_nil, List.append_nil]
+      have hcase : x ∈ HLG.keysOf ret.flatten ∨ x ∈ HLG.keysOf l.tasks ∨ x ∈ HLG.keysOf (allTasks r) := by
+        rcases hx with hx | ⟨t, ht, hxt⟩
+        · rcases hneed x (Or.inl hx) hxg with h | ⟨h, _⟩
+          · exact Or.inl h
+          · rw [allTasks_cons] at h
+            exact Or.inr (mem_keysOf_append.mp h)
+        · simp only [List.flatten_append, List.flatten_cons, List.flatten_nil, List.append_nil, List.mem_append] at ht
+          rcases ht with ht | ht
+          · rcases hneed x (Or.inr ⟨t, ht, hxt⟩) hxg with h | ⟨h, _⟩
+            · exact Or.inl h
+            · rw [allTasks_cons] at h
+              exact Or.inr (mem_keysOf_append.mp h)
+          · exact Or.inr (hdepl t ht x hxt hxg)
+      rcases hcase with h | h | h
+      · exact Or.inl (mem_keysOf_append.mpr (Or.inl h))
+      · exact Or.inl (mem_keysOf_append.mpr (Or.inr h))
+      · exact Or.inr ⟨h, Or.inr hks⟩
+  · simp only [hemp, Bool.false_eq_true, if_false]
+    have hksne : ks ≠ [] := by simpa using hemp
+    by_cases hkept : (cullLayer l.shortcut l.tasks ks).isEmpty
+    · -- `if not culled_deps: continue`
+      simp only [hkept, if_true]
+      have hk0 : cullLayer l.shortcut l.tasks ks = [] := by simpa using hkept
+      refine ⟨?_, ?_⟩
+      · intro t ht
+        rw [hpre1]
+        exact List.mem_append_left _ (hsub t ht)
+      · intro x hx hxg
+        rw [hall] at hxg
+        rcases hneed x hx hxg with h | ⟨h, hk⟩
+        · exact Or.inl h
+        · rw [allTasks_cons] at h
+          rcases mem_keysOf_append.mp h with h | h
+          · -- a requested key of this layer would have been kept
+            rcases hk with hk | hk
+            · have := cullLayer_keeps l.shortcut l.tasks ks x hk h
+              rw [hk0] at this
+              simp [HLG.keysOf] at this
+            · exact absurd hk hksne
+          · exact Or.inr ⟨h, hk⟩
+    · simp only [hkept, Bool.false_eq_true, if_false]
+      have hkeptsub := cullLayer_sub l.shortcut l.tasks ks
+      have hnd : (HLG.keysOf (cullLayer l.shortcut l.tasks ks)).Nodup :=
+        nodup_sublist_keys _ _ (cullLayer_sublist _ _ _) (topoL_nodup _ hTl)
+      refine ⟨?_, ?_⟩
+      · intro t ht
+        simp only [List.flatten_append, List.flatten_cons, List.flatten_nil, List.append_nil, List.mem_append] at ht
+        rw [hpre1]
+        rcases ht with ht | ht
+        · exact List.mem_append_left _ (hsub t ht)
+        · exact List.mem_append_right _ (hkeptsub t ht)
+      · intro x hx hxg
+        rw [hall] at hxg
+        simp only [List.flatten_append, List.flatten_cons, List.flatten_nil, List.append_nil]
+        -- keys of deeper layers survive the update of keys_set
+        have hupd : ∀ y, y ∈ HLG.keysOf (allTasks r) →
+            (y ∈ ks ∨ ∃ t ∈ cullLayer l.shortcut l.tasks ks, y ∈ t.2) →
+            y ∈ updKeys ks (reorder l.ord (cullLayer l.shortcut l.tasks ks)) := by
+          intro y hy hsrc
+          apply updKeys_keeps
+          · rcases hsrc with h | ⟨t, ht, hyt⟩
+            · exact Or.inl h
+            · exact Or.inr ⟨t, reorder_sup _ _ hnd t ht, hyt⟩
+          · intro hmem
+            obtain ⟨t, ht, hty⟩ := List.mem_map.mp hmem
+            have htl : t ∈ l.tasks := hkeptsub t (reorder_sub _ _ t ht)
+            exact hdisj y (hty ▸ mem_keysOf htl) hy
+        rcases hx with hx | ⟨t, ht, hxt⟩
+        · rcases hneed x (Or.inl hx) hxg with h | ⟨h, hk⟩
+          · exact Or.inl (mem_keysOf_append.mpr (Or.inl h))
+          · rcases hk with hk | hk
+            · rw [allTasks_cons] at h
+              rcases mem_keysOf_append.mp h with h | h
+              · exact Or.inl (mem_keysOf_append.mpr (Or.inr (cullLayer_keeps _ _ _ x hk h)))
+              · exact Or.inr ⟨h, Or.inl (hupd x h (Or.inl hk))⟩
+            · exact absurd hk hksne
+        · simp only [List.flatten_append, List.flatten_cons, List.flatten_nil, List.append_nil, List.mem_append] at ht
+          rcases ht with ht | ht
+          · rcases hneed x (Or.inr ⟨t, ht, hxt⟩) hxg with h | ⟨h, hk⟩
+            · exact Or.inl (mem_keysOf_append.mpr (Or.inl h))
+            · rcases hk with hk | hk
+              · rw [allTasks_cons] at h
+                rcases mem_keysOf_append.mp h with h | h
+                · exact Or.inl (mem_keysOf_append.mpr (Or.inr (cullLayer_keeps _ _ _ x hk h)))
+                · exact Or.inr ⟨h, Or.inl (hupd x h (Or.inl hk))⟩
+              · exact absurd hk hksne
+          · rcases hdepl t (hkeptsub t ht) x hxt hxg with h | h
+            · exact Or.inl (mem_keysOf_append.mpr (Or.inr (cullLayer_closed _ _ _ hTl t ht x hxt h)))
+            · exact Or.inr ⟨h, Or.inl (hupd x h (Or.inr ⟨t, ht, hxt⟩))⟩
+
+theorem inv_loop (keys0 : List K) (pre rest : List LayerIn) (st : List K × List (List HLG.Task))
+    (hT : TopoH rest)
+    (hdep : ∀ t ∈ allTasks rest, ∀ x ∈ t.2, x ∉ HLG.keysOf (allTasks pre))
+    (hinv : Inv keys0 pre rest st) : Inv keys0 (pre ++ rest) [] (rest.foldl cullStep st) := by
+  induction rest generalizing pre st with
+  | nil => simpa using hinv
+  | cons l r ih =>
+    simp only [List.foldl_cons]
+    have h1 := inv_step keys0 pre l r st hT hdep hinv
+    have hT' : TopoH r := hT.2.2.2
+    have hdep' : ∀ t ∈ allTasks r, ∀ x ∈ t.2, x ∉ HLG.keysOf (allTasks (pre ++ [l])) := by
+      intro t ht x hx hmem
+      have : allTasks (pre ++ [l]) = allTasks pre ++ l.tasks := by simp [allTasks]
+      rw [this] at hmem
+      rcases mem_keysOf_append.mp hmem with h | h
+      · exact hdep t (by rw [allTasks_cons]; exact List.mem_append_right _ ht) x hx h
+      · exact hT.2.2.1 t ht x hx h
+    have := ih (pre ++ [l]) (cullStep st l) hT' hdep' h1
+    simpa using this
+
+/-- **hlg_cull_sound.** For a well-formed layer list (reversed topological order, disjoint keys) and ANY iteration
+    orders of the `culled_deps` dicts, the graph returned by `HighLevelGraph.cull(keys)`
+    (a) contains only tasks of the original graph, unchanged;
+    (b) contains every requested key that the graph has;
+    (c) is closed: every dependency of a kept task that is a key of the graph is kept. -/
+theorem hlg_cull_sound (layers : List LayerIn) (keys : List K) (hT : TopoH layers) :
+    (∀ t ∈ (HLG.cull layers keys).flatten, t ∈ allTasks layers) ∧
+    (∀ k ∈ keys, k ∈ HLG.keysOf (allTasks layers) → k ∈ HLG.keysOf (HLG.cull layers keys).flatten) ∧
+    (∀ t ∈ (HLG.cull layers keys).flatten, ∀ x ∈ t.2, x ∈ HLG.keysOf (allTasks layers) →
+        x ∈ HLG.keysOf (HLG.cull layers keys).flatten) := by
+  have h0 : Inv keys [] layers (keys, []) := by
+    refine ⟨by simp, ?_⟩
+    intro x hx hxg
+    right
+    rcases hx with hx | ⟨t, ht, _⟩
+    · exact ⟨by simpa using hxg, Or.inl hx⟩
+    · simp at ht
+  have h := inv_loop keys [] layers (keys, []) hT (by simp [allTasks, HLG.keysOf]) h0
+  simp only [List.nil_append] at h
+  obtain ⟨hsub, hneed⟩ := h
+  unfold HLG.cull
+  refine ⟨hsub, ?_, ?_⟩
+  · intro k hk hkg
+    rcases hneed k (Or.inl hk) (by simpa using hkg) with h | ⟨h, _⟩
+    · exact h
+    · simp [allTasks, HLG.keysOf] at h
+  · intro t ht x hx hxg
+    rcases hneed x (Or.inr ⟨t, ht, hx⟩) (by simpa using hxg) with h | ⟨h, _⟩
+    · exact h
+    · simp [allTasks, HLG.keysOf] at h
+
+/-- Consequence: requested keys evaluate to the same value tree in the culled graph (tasks are looked up by key;
+    the original graph has distinct keys). -/
+theorem lookupTask_of_mem (g : List HLG.Task) (hnd : (HLG.keysOf g).Nodup) (t : HLG.Task) (ht : t ∈ g) :
+    lookupTask g t.1 = some t.2 := by
+  induction g with
+  | nil => simp at ht
+  | cons a r ih =>
+    simp only [HLG.keysOf, List.map_cons, List.nodup_cons] at hnd
+    obtain ⟨k, d⟩ := a
+    by_cases hk : k = t.1
+    · rcases List.mem_cons.mp ht with h | h
+      · subst h; simp [lookupTask]
+      · exfalso; apply hnd.1; show k ∈ HLG.keysOf r; rw [hk]; exact mem_keysOf h
+    · rcases List.mem_cons.mp ht with h | h
+      · subst h; simp at hk
+      · simp only [lookupTask, hk, if_false]
+        exact ih hnd.2 h
+
+theorem lookupTask_none_of_not_mem (g : List HLG.Task) (k : K) (h : k ∉ HLG.keysOf g) : lookupTask g k = none := by
+  induction g with
+  | nil => rfl
+  | cons a r ih =>
+    obtain ⟨k0, d⟩ := a
+    simp only [HLG.keysOf, List.map_cons, List.mem_cons, not_or] at h
+    simp only [lookupTask, Ne.symm h.1, if_false]
+    exact ih h.2
+
+theorem lookupTask_some_mem (g : List HLG.Task) (k : K) (h : k ∈ HLG.keysOf g) : ∃ d, lookupTask g k = some d ∧ (k, d) ∈ g := by
+  induction g with
+  | nil => simp [HLG.keysOf] at h
+  | cons a r ih =>
+    obtain ⟨k0, d⟩ := a
+    by_cases hk : k0 = k
+    · subst hk
+      exact ⟨d, by simp [lookupTask], by simp⟩
+    · simp only [HLG.keysOf, List.map_cons, List.mem_cons] at h
+      rcases h with h | h
+      · exact absurd h.symm hk
+      · obtain ⟨d', h1, h2⟩ := ih h
+        exact ⟨d', by simp [lookupTask, hk, h1], by simp [h2]⟩
+
+theorem eval_missing (g : List HLG.Task) (fuel : Nat) (k : K) (h : k ∉ HLG.keysOf g) : HLG.eval g fuel k = .missing k := by
+  cases fuel with
+  | zero => rfl
+  | succ n => simp [HLG.eval, lookupTask_none_of_not_mem g k h]
+
+/-- a sub-graph that is closed under dependencies evaluates its keys like the whole graph -/
+theorem eval_eq_of_closed (R G : List HLG.Task) (hsub : ∀ t ∈ R, t ∈ G) (hG : (HLG.keysOf G).Nodup)
+    (hcl : ∀ t ∈ R, ∀ x ∈ t.2, x ∈ HLG.keysOf G → x ∈ HLG.keysOf R) :
+    ∀ fuel k, k ∈ HLG.keysOf R → HLG.eval R fuel k = HLG.eval G fuel k := by
+  intro fuel
+  induction fuel with
+  | zero => intro k _; rfl
+  | succ n ih =>
+    intro k hk
+    obtain ⟨d, hl, hm⟩ := lookupTask_some_mem R k hk
+    have hlg : lookupTask G k = some d := lookupTask_of_mem G hG (k, d) (hsub _ hm)
+    simp only [HLG.eval, hl, hlg]
+    congr 1
+    apply List.map_congr_left
+    intro x hx
+    by_cases hxg : x ∈ HLG.keysOf G
+    · exact ih x (hcl (k, d) hm x hx hxg)
+    · have hxr : x ∉ HLG.keysOf R := by
+        intro h
+        obtain ⟨t, ht, hte⟩ := List.mem_map.mp h
+        exact hxg (hte ▸ mem_keysOf (hsub t ht))
+      rw [eval_missing R n x hxr, eval_missing G n x hxg]
+
+/-- **Values unchanged.** Every key of the culled graph — in particular every requested key — denotes, in the culled
+    graph, the same value tree as in the original graph (for every evaluation depth). -/
+theorem hlg_cull_values (layers : List LayerIn) (keys : List K) (hT : TopoH layers)
+    (hnd : (HLG.keysOf (allTasks layers)).Nodup) (fuel : Nat) (k : K)
+    (hk : k ∈ HLG.keysOf (HLG.cull layers keys).flatten) :
+    HLG.eval (HLG.cull layers keys).flatten fuel k = HLG.eval (allTasks layers) fuel k := by
+  obtain ⟨h1, _, h3⟩ := hlg_cull_sound layers keys hT
+  exact eval_eq_of_closed _ _ h1 hnd h3 fuel k hk
+
+/-- non-vacuity + the `keys_set` quirk: with the dict order `[2, 1]` the leftover key keeps `keys_set` non-empty and
+    the unrelated layer is dropped; with `[1, 2]` `keys_set` empties and the unrelated layer is kept whole. Both sound. -/
+example : HLG.cull [⟨true, [(3, [2, 1])], [3]⟩, ⟨true, [(2, [1]), (1, [])], [1, 2]⟩, ⟨true, [(9, []), (8, [])], []⟩] [3]
+    = [[(3, [2, 1])], [(2, [1]), (1, [])]] := by decide
+example : HLG.cull [⟨true, [(3, [2, 1])], [3]⟩, ⟨true, [(2, [1]), (1, [])], [2, 1]⟩, ⟨true, [(9, []), (8, [])], []⟩] [3]
+    = [[(3, [2, 1])], [(2, [1]), (1, [])], [(9, []), (8, [])]] := by decide
+example : TopoH [⟨true, [(3, [2, 1])], [3]⟩, ⟨true, [(2, [1]), (1, [])], [2, 1]⟩, ⟨true, [(9, []), (8, [])], []⟩] := by
+  simp [TopoH, TopoL, allTasks, HLG.keysOf]
+
+end HLGCull
 
 /-! ## 3. fused annotations never loosen a constraint (over the EXTRACTED rule table) -/
 section Annotations
